@@ -46,8 +46,8 @@ def check(ctx):
 
 
 MANIFEST = {
-    "technique": "static analysis: extracted writer/reader member tables vs transcribed Hayson specification; CFG loop-position rule for member-order independence",
+    "technique": "static analysis: extracted writer/reader member tables vs transcribed Hayson specification; CFG loop-position rule for member-order independence; path-condition truth tables and must-pass-through on the reader / writer CFGs (typed deserializers, member guards, optional members complete, members read before Ok, nothing dropped, refusal conditions)",
     "level": "Decides the finite table part of conformance for all kinds, and decides order independence as a property of visit_map's control flow (all "
-    "member orders at once, not the few a test tries): no value is built until the member loop has ended.",
+    "member orders at once, not the few a test tries): no value is built until the member loop has ended. On every path: a member is written iff its field is present (and the encoding-prescribed tests), read before a success is returned, and a document is refused only for absent / wrongly typed members or refused sub-parses.",
     "note": "Partial claim. Trusted: A5 transcription, serde's MapAccess contract, rustc MIR.",
 }
